@@ -68,6 +68,12 @@ var impls = map[string]func(string) string{
 	"mtree.line":      implMtreeLine,
 	"mtree.parse":     implMtreeParse,
 	"mtree.name":      implMtreeName,
+	"gcs.get":         implGcsGet,
+	"gcs.store":       implGcsStore,
+	"gcs.bulk":        implGcsBulk,
+	"gcs.has":         implGcsHas,
+	"gcs.prune":       implGcsPrune,
+	"gcsindex.ops":    implGcsIndexOps,
 }
 
 type replayFile struct {
